@@ -64,6 +64,9 @@ func (v DenseInt16Vector) AT(i int) Int16 {
   return Int16{&v[i]}
 }
 func (v DenseInt16Vector) APPEND(w DenseInt16Vector) DenseInt16Vector {
+  // v might be a slice of a longer vector, do not
+  // overwrite the elements behind it
+  v = v[:len(v):len(v)]
   return append(v, w...)
 }
 func (v DenseInt16Vector) ToDenseInt16Matrix(n, m int) *DenseInt16Matrix {
@@ -114,12 +117,18 @@ func (v DenseInt16Vector) Swap(i, j int) {
   v[i], v[j] = v[j], v[i]
 }
 func (v DenseInt16Vector) AppendScalar(scalars ...Scalar) Vector {
+  // v might be a slice of a longer vector, do not
+  // overwrite the elements behind it
+  v = v[:len(v):len(v)]
   for _, scalar := range scalars {
     v = append(v, scalar.GetInt16())
   }
   return v
 }
 func (v DenseInt16Vector) AppendVector(w Vector) Vector {
+  // v might be a slice of a longer vector, do not
+  // overwrite the elements behind it
+  v = v[:len(v):len(v)]
   for i := 0; i < w.Dim(); i++ {
     v = append(v, w.ConstAt(i).GetInt16())
   }
